@@ -644,6 +644,13 @@ void ConnRef::clearFixedRoute(void)
 {
     m_has_fixed_route = false;
     makePathInvalid();
+    if (m_src_vert && m_dst_vert)
+    {
+        // updateEndPoint() does not compute visibility for the end vertices
+        // of a connector with a fixed route, so have it do that now.
+        std::pair<ConnEnd, ConnEnd> ends = endpointConnEnds();
+        setEndpoints(ends.first, ends.second);
+    }
     m_router->registerSettingsChange();
 }
 
